@@ -291,5 +291,76 @@ func checkC01(c *Ctx) {
 			c.Ob("C01.special", pk, funcKey(fn), "returns-nil-for-non-residues", p.Pos(fn.Pos()), hasNil, funcKey(fn)+": no path returns nil: a root is reported for non-squares")
 		}
 	}
+	// ---- carry discipline in the fields whose modulus fills its words
+	c.Rule("C01.carry", "L-CARRY: in a field whose modulus uses every bit of its limbs (Bits == word size x limbs: goldilocks, secp256k1 fp/fr) the sum of two reduced elements, or of an element and q, can exceed the limbs: in Add, Double and Halve the carry-out of every math/bits.Add on the top limb is consumed (it has a use); fields with a spare top bit have no such obligation", 3)
+	for _, pk := range fieldPkgs(p) {
+		pkg := p.ByPath[modPath+"/"+pk]
+		if pkg == nil {
+			continue
+		}
+		et, _ := pkg.Types.Scope().Lookup("Element").(*types.TypeName)
+		bitsC, okB := pkgConst(pkg, "Bits")
+		if et == nil || !okB {
+			continue
+		}
+		arr := et.Type().Underlying().(*types.Array)
+		N := arr.Len()
+		w := int64(64)
+		if b, ok := arr.Elem().Underlying().(*types.Basic); ok && b.Kind() == types.Uint32 {
+			w = 32
+		}
+		if bitsC.Int64() != w*N {
+			continue
+		}
+		c.Instance("C01.carry", 1)
+		for _, name := range []string{"Add", "Double", "Halve"} {
+			fn := p.Func(pk, "Element", name)
+			if fn == nil {
+				continue
+			}
+			bad := ""
+			n := 0
+			for _, b := range fn.Blocks {
+				for _, in := range b.Instrs {
+					call, ok := in.(*ssa.Call)
+					if !ok {
+						continue
+					}
+					cl := calleeOf(&call.Call)
+					if cl.Pkg != "math/bits" || !strings.HasPrefix(cl.Name, "Add") {
+						continue
+					}
+					top := false
+					for _, a := range call.Call.Args[:2] {
+						if ld, ok := a.(*ssa.UnOp); ok {
+							if ia, ok := ld.X.(*ssa.IndexAddr); ok {
+								if k, ok := constInt(ia.Index); ok && k == N-1 {
+									top = true
+								}
+							}
+						}
+					}
+					if !top {
+						continue
+					}
+					n++
+					used := false
+					if call.Referrers() != nil {
+						for _, r := range *call.Referrers() {
+							if ex, ok := r.(*ssa.Extract); ok && ex.Index == 1 && ex.Referrers() != nil && len(*ex.Referrers()) > 0 {
+								used = true
+							}
+						}
+					}
+					if !used {
+						bad = p.Pos(call.Pos())
+					}
+				}
+			}
+			if n > 0 {
+				c.Ob("C01.carry", pk, funcKey(fn), "top-limb-carry-consumed", p.Pos(fn.Pos()), bad == "", funcKey(fn)+": the carry-out of the addition on the top limb at "+bad+" is discarded although the modulus fills the limb: for operands whose sum does not fit, the result is off by 2^(word size)")
+			}
+		}
+	}
 	c.Assume("exactness of Mul/Add/Inverse/... as functions on integers modulo q, carry boundaries and the assembly are value-level: not decided")
 }
